@@ -140,6 +140,41 @@ def run_verus_unit(unit, workdir, tier, seed):
             "verified": vr.get("verified"), "errors": vr.get("errors"), "gen": gen, "stderr": err}
 
 
+def run_vacuity_probe(unit, workdir, tier):
+    """vacuity guard per function: the unit is extracted a second time with a ghost `assert(false)` at the normal exit of every
+    function under contract; Verus must report each of them as failing.  Returns the functions whose probe was PROVED
+    (contradictory preconditions / unreachable exit), or raises Undecided when the probe run itself gives no answer."""
+    tpl = os.path.join(VERIF, "verus", "units", unit + ".rs")
+    gen = os.path.join(workdir, unit + "_vacuity.rs")
+    logp = os.path.join(workdir, unit + ".vacuity.extract.json")
+    rc, out, err, dt = sh([sys.executable, os.path.join(HERE, "extract.py"), tpl, "-o", gen, "--log", logp, "--vacuity"])
+    if rc != 0:
+        raise Undecided("vacuity probe: extract %s: %s" % (unit, err.strip()))
+    tmo = 180 if tier == "quick" else 600
+    cmd = ["verus", gen, "--output-json", "--time", "--multiple-errors", "1000"]
+    rc, out, err, dt = sh(cmd, cwd=workdir, timeout=tmo)
+    if rc == -9:
+        raise Undecided("vacuity probe: verus %s: timeout after %ds" % (unit, tmo))
+    try:
+        j = json.loads(out)
+    except Exception:
+        raise Undecided("vacuity probe: verus %s: no JSON output" % unit)
+    vr_ = j.get("verification-results", {})
+    if vr_.get("encountered-vir-error") or "verified" not in vr_ or (vr_.get("verified", 0) + vr_.get("errors", 0)) == 0:
+        raise Undecided("vacuity probe: verus %s: front-end error:\n%s" % (unit, err[-1500:]))
+    gen_lines = open(gen).read().split("\n")
+    probe_lines = [i + 1 for i, l in enumerate(gen_lines) if "assert(false); /*probe*/" in l]
+    failed = set(int(m.group(1)) for m in re.finditer(r"assertion failed\n\s*--> [^\n]*?:(\d+):", err))
+    # probes are grouped by the function they sit in (start line of the enclosing `fn`); a function is vacuous if NONE of its
+    # probes (normal exit, every `return`) is reported as failing
+    by_fn = {}
+    for l in probe_lines:
+        start = next((i for i in range(min(l, len(gen_lines)) - 1, -1, -1) if re.search(r"\bfn\s+\w+", gen_lines[i]) and not gen_lines[i].lstrip().startswith("//")), 0)
+        by_fn.setdefault(start, []).append(l)
+    proved = [re.search(r"\bfn\s+(\w+)", gen_lines[st]).group(1) for st, ls in sorted(by_fn.items()) if not any(l in failed for l in ls)]
+    return {"probes": len(probe_lines), "functions": len(by_fn), "proved": proved, "wall_s": dt, "cmd": " ".join(cmd)}
+
+
 def parse_verus_diags(err):
     diags = []
     cur = None
@@ -448,6 +483,7 @@ def main():
     cmds = []
     fn_under_contract = []
     extract_summ = []
+    vacuity_summ = []
     bounded = []
     try:
         # ---- Verus
@@ -472,6 +508,14 @@ def main():
                 undecided.append(str(e))
                 continue
             cmds.append(r["cmd"])
+            try:
+                vp_ = run_vacuity_probe(unit, workdir, a.tier)
+                cmds.append(vp_["cmd"] + "   # vacuity probes: must fail")
+                if vp_["proved"]:
+                    undecided.append("verus %s: vacuity guard: `assert(false)` at the exit of %s is PROVED -- contradictory preconditions" % (unit, sorted(set(map(str, vp_["proved"])))))
+                vacuity_summ.append({"unit": unit, "functions_probed": vp_["functions"], "probes": vp_["probes"], "proved": vp_["proved"], "wall_s": round(vp_["wall_s"], 1)})
+            except Undecided as e:
+                undecided.append(str(e))
             log = r["log"]
             extract_summ.append({"unit": unit, "rules": log["rules"], "dropped_docs": log["dropped_docs"],
                                  "dropped_attrs": log["dropped_attrs"], "spliced_clauses": log["spliced_clauses"],
@@ -593,6 +637,7 @@ def main():
             "solver_s": round(sum(o.get("solver_s") or 0 for o in obligations), 3),
             "bounded_harnesses": bounded,
             "extraction": extract_summ,
+            "vacuity_probes": vacuity_summ,
             "samples": [{"id": o["id"], "kind": o["kind"], "status": o["status"], "solver_s": round(o.get("solver_s") or 0, 3),
                          **({"repo": o["repo"]} if "repo" in o else {}), **({"checks": o["checks"]} if "checks" in o else {}),
                          **({"contract": o["contract"]} if o.get("contract") else {})}
